@@ -84,6 +84,10 @@ def build_history(rng, srv, spool):
             l = rng.choice([0.01, p * 0.5])
         lives.append(l)
     sc.add("lives " + " ".join("%g" % x for x in lives))
+    if rng.random() < 0.5:
+        # exits arrive as a signal while the loop is about to poll and are collected after the timers of the same
+        # iteration (what a daemon that was held up sees); otherwise they are seen before the timers
+        sc.add("reapmode poll")
     t = now
     conn = 0
     stalls = 0
